@@ -96,6 +96,14 @@ def run_impl(case, defer=False):
                 r = getattr(q, name)(op[1])
                 if r is not q:
                     return {"err": f"{name} did not return the query"}
+            elif name == "take" and h == 3 and op[1] >= 1 and not defer:
+                # the same split done by hand: iterate the query object, stop after n matches, abandon the iterator
+                got_ = []
+                for m_ in q:
+                    got_.append(m_.obj)
+                    if len(got_) >= op[1]:
+                        break
+                outs.append({"taken": got_})
             elif name == "take":
                 t = q.take(op[1])
                 if defer:
